@@ -324,8 +324,21 @@ func (wf *Workflow) runProcs(procs map[string]WorkflowProcess) {
 
 	Debug.Printf("%s: Starting driver process (%s) in main go-routine", wf.name, wf.driver.Name())
 	wf.Auditf("Starting workflow (Writing log to %s)", wf.logFile)
+	// If a process without out-ports drives the workflow, the sink still has to
+	// drain the out-ports connected to it, and the workflow is not finished
+	// before it has done so
+	sinkDone := make(chan struct{})
+	if wf.driver != WorkflowProcess(wf.sink) {
+		go func() {
+			wf.sink.Run()
+			close(sinkDone)
+		}()
+	} else {
+		close(sinkDone)
+	}
 	vhook("wf.driver.start", wf.driver.Name())
 	wf.driver.Run()
+	<-sinkDone
 	vhook("wf.driver.return", wf.driver.Name())
 	wf.Auditf("Finished workflow (Log written to %s)", wf.logFile)
 }
